@@ -265,9 +265,11 @@ class FakeSocket(socket.socket):
         return bool(self.rx.q) or self.rx.eof or self.rx.error is not None
 
     def writable(self) -> bool:
+        if self.tx_blocked:
+            return False
         if self.txd is not None:
             return True
-        if self.tx is None or self.tx_blocked:
+        if self.tx is None:
             return False
         return self.tx.free() > 0 or self.tx.error is not None or self.tx.eof
 
